@@ -304,8 +304,21 @@ func c14e2eMain(triggered bool) {
 				switch {
 				case len(replicas) > 0 && r.chance(1, 2):
 					ri, m := r.intn(len(replicas)), r.intn(n)
+					old := repOf[ri]
 					repOf[ri] = m
 					ops = append(ops, fmt.Sprintf("mr%d,%d", replicas[ri], m))
+					// reads of the former master's keys: the moved replica still gets some, says MOVED once, and the refresh
+					// that redirection triggers must end it
+					for y, cnt := 0, 0; y < 60 && cnt < 10; y++ {
+						k := []byte("k" + strconv.Itoa(y))
+						sl := simSlot(k)
+						for _, rg := range ranges {
+							if rg[0] <= sl && sl <= rg[1] && rg[2] == old {
+								ops = append(ops, "g"+hex.EncodeToString(k))
+								cnt++
+							}
+						}
+					}
 				case !triggered && r.chance(1, 2):
 					// a master is unreachable for a while: its replicas must not be given its writes (nor its reads under
 					// the master-only strategy); preferably a master that has a replica, and keys of its slots
